@@ -547,6 +547,14 @@ fn c08_invariant_with(keys: &[Vec<u8>]) -> impl Fn(&Ctx, &mut World, &ExpState) 
             if acc_scan != model {
                 ctx.violation("c08:accessor-scan-differs-from-model", json!({"contract": c, "history": es.s.name}));
             }
+            // the same data in the other direction (read-only accessor, descending)
+            let acc_desc: Vec<(Vec<u8>, Vec<u8>)> = world.app.contract_storage(&ad).range(None, None, cosmwasm_std::Order::Descending).collect();
+            let mut want_desc: Vec<(Vec<u8>, Vec<u8>)> = model.iter().map(|(k, v)| (k.clone(), v.clone())).collect();
+            want_desc.reverse();
+            n += 1;
+            if acc_desc != want_desc {
+                ctx.violation("c08:accessor-scan-differs-from-model:descending", json!({"contract": c, "history": es.s.name, "got": acc_desc.iter().map(|(k, _)| show(k)).collect::<Vec<_>>(), "want": want_desc.iter().map(|(k, _)| show(k)).collect::<Vec<_>>()}));
+            }
             let mut probe: Vec<Vec<u8>> = keys.to_vec();
             probe.extend(model.keys().cloned());
             for k in &probe {
